@@ -92,10 +92,10 @@ class PrettyPrinter:
         self._kwargs = kwargs
 
     def pprint(self, object):
-        pprint(*self._args, **self._kwargs)
+        pprint(object, *self._args, **self._kwargs)
 
     def pformat(self, object):
-        return pformat(*self._args, **self._kwargs)
+        return pformat(object, *self._args, **self._kwargs)
 
     def isrecursive(self, object):
         return isrecursive(object)
